@@ -15,7 +15,10 @@ PROPERTY = "C16"
 TECHNIQUE = ("property-based testing (Hypothesis) against round-trip, raw-file (astropy) and "
              "metamorphic oracles")
 RULE = (
-    "Hypothesis draws an object kind (Array2D unmasked / masked, Kernel2D, Mask2D, Array1D unmasked / masked, "
+    "Hypothesis draws an object kind (Array2D unmasked / masked / 'raw' = native-stored masked array whose underlying "
+    "ndarray holds non-zero numbers at masked pixels, built with store_native=True+skip_mask=True or by arr+c, "
+    "arr.native+c, c-arr on a native-stored masked array, expectation np.where(mask,0,raw) on every route; "
+    "Kernel2D, Mask2D, Array1D unmasked / masked, "
     "Mask1D, Imaging), a shape 1..7 x 1..7 (1xN, Nx1, square, non-square) or length 1..9, finite float64 values "
     "(reals in [-1e3,1e3] mixed with 0, 1e-300, 1e300, 5e-324, DBL_MAX and negatives), a constructive mask, "
     "pixel scales by class (isotropic; anisotropic with independent components; anisotropic with |sy-sx| < 1e-8; "
@@ -61,12 +64,18 @@ ASSUMPTIONS = [
     "HDU keeps the Python float, so that route is always exact; values are exact (BITPIX=-64)",
     "a FITS file may be replaced by any writer between two reads in one process; the reference for what a read must "
     "return is a fresh astropy open at that moment",
+    "Array1D: a native-stored Array1D keeps whatever the caller (or additive arithmetic) left at masked entries - its "
+    "constructor, unlike Array2D's, never zeroes them and there is no 1D native_skip_mask distinction - so 'identical "
+    "native values' and 'zeros at masked pixels' can both hold only for a native input that is already zero there; the "
+    "harness supplies such inputs for 1D (precondition) and applies the stored-content-at-masked-pixels class to 2D only",
     "Imaging.from_fits re-normalises the PSF (use_normalized_psf default), so the Imaging PSF is compared with "
     "rtol 1e-14 to the already-normalised PSF that was written; data and noise map exactly",
 ]
 
 SPECIAL = [0.0, -0.0, 1.0, -1.5, 1e-300, -1e-300, 1e300, -1e300, 5e-324, 1.7976931348623157e308]
-KINDS_2D = ["array2d", "array2d-masked", "kernel2d", "mask2d"]
+# "array2d-raw": a masked Array2D stored natively whose underlying ndarray holds non-zero numbers at masked pixels
+# (store_native=True with skip_mask=True, or additive arithmetic on a native-stored masked array)
+KINDS_2D = ["array2d", "array2d-masked", "array2d-raw", "kernel2d", "mask2d"]
 KINDS_1D = ["array1d", "array1d-masked", "mask1d"]
 PATH_KINDS_MAIN = ["abs", "nested", "rel-nested", "pathlib"]
 PATH_KINDS_ALL = ["abs", "nested", "rel-nested", "dot", "pathlib", "bare", "pathlib-bare"]
@@ -170,6 +179,21 @@ def build(spec):
             return aa.Kernel2D.no_mask(values=vals.copy(), pixel_scales=scales, normalize=False), vals
         m = np.asarray(spec["mask"], dtype=bool).reshape(h, w)
         mask = aa.Mask2D(mask=m.copy(), pixel_scales=scales)
+        if kind == "array2d-raw":
+            how, c = spec["raw"], float(spec.get("c", 0.0))
+            if how == "skip_mask":
+                obj, raw = aa.Array2D(values=vals.copy(), mask=mask, store_native=True, skip_mask=True), vals
+            else:
+                base = aa.Array2D(values=vals.copy(), mask=mask, store_native=True)
+                if how == "add":
+                    obj, raw = base + c, vals + c
+                elif how == "native-add":
+                    obj, raw = base.native + c, vals + c
+                elif how == "rsub":
+                    obj, raw = c - base, c - vals
+                else:
+                    raise ValueError(how)
+            return obj, np.where(m, 0.0, raw)
         src = vals.copy() if spec.get("given", "native") == "native" else vals[~m].copy()
         obj = aa.Array2D(values=src, mask=mask, store_native=bool(spec.get("store_native", False)))
         return obj, np.where(m, 0.0, vals)
@@ -202,7 +226,7 @@ def want_scales(spec):
 
 def read_file(kind, path, scales, hdu=0, **kw):
     aa = _aa()
-    if kind in ("array2d", "array2d-masked"):
+    if kind in ("array2d", "array2d-masked", "array2d-raw"):
         return aa.Array2D.from_fits(file_path=path, pixel_scales=scales, hdu=hdu)
     if kind == "kernel2d":
         return aa.Kernel2D.from_fits(file_path=path, hdu=hdu, pixel_scales=scales, normalize=False)
@@ -217,7 +241,7 @@ def read_file(kind, path, scales, hdu=0, **kw):
 
 def read_hdu(kind, hdu):
     aa = _aa()
-    cls = {"array2d": aa.Array2D, "array2d-masked": aa.Array2D, "kernel2d": aa.Kernel2D, "mask2d": aa.Mask2D,
+    cls = {"array2d": aa.Array2D, "array2d-masked": aa.Array2D, "array2d-raw": aa.Array2D, "kernel2d": aa.Kernel2D, "mask2d": aa.Mask2D,
            "array1d": aa.Array1D, "array1d-masked": aa.Array1D, "mask1d": aa.Mask1D}[kind]
     return cls.from_primary_hdu(primary_hdu=hdu)
 
@@ -348,6 +372,13 @@ def labels_for(ctx, spec, want, flip, path_kind=None):
             ctx.label("values:huge")
         if (want < 0).any():
             ctx.label("values:negative")
+    if kind == "array2d-raw":
+        obj, _ = build(spec)
+        under = np.asarray(getattr(obj, "_array", obj))
+        m = np.asarray(spec["mask"], dtype=bool)
+        ctx.label("raw:" + spec["raw"])
+        leak = under.shape == m.shape and bool(np.any(under[m] != 0))
+        ctx.label("raw:nonzero-stored-at-masked-pixels" if leak else "raw:nothing-to-leak")
     if "mask" in spec and spec["kind"].endswith("masked"):
         ctx.label("mask:mixed" if np.asarray(spec["mask"]).any() else "mask:none-masked")
     return nt
@@ -488,6 +519,25 @@ def obj2d(draw, kinds=KINDS_2D, hi=7):
         spec["mask"] = draw(gens.masks(shape=[h, w]))
         spec["given"] = draw(st.sampled_from(["native", "slim"]))
         spec["store_native"] = draw(st.booleans())
+    if kind == "array2d-raw":
+        if h * w == 1:  # room for one masked and one unmasked pixel
+            w = 2
+            spec["shape"] = [h, w]
+            spec["values"] = spec["values"] + draw(values_list(1))
+        mask = [list(r) for r in draw(gens.masks(shape=[h, w]))]
+        if not any(v for r in mask for v in r):  # at least one masked pixel
+            i = draw(st.integers(0, h * w - 1))
+            mask[i // w][i % w] = True
+        if all(v for r in mask for v in r):
+            mask[0][0] = False
+        spec["mask"] = mask
+        spec["raw"] = draw(st.sampled_from(["skip_mask", "add", "native-add", "rsub"]))
+        if spec["raw"] == "skip_mask":
+            # what sits at masked pixels is what would leak: make it non-zero
+            flat = [v for r in mask for v in r]
+            spec["values"] = [(3.25 if (mk and v == 0) else v) for v, mk in zip(spec["values"], flat)]
+        else:
+            spec["c"] = draw(st.one_of(st.sampled_from([7.5, -2.0, 1e-3, 1e6]), gens.reals(-100, 100, allow_zero=False)))
     return spec
 
 
@@ -760,9 +810,16 @@ def build_imaging(spec, with_mask=True):
     if m is not None and with_mask:
         mm = np.asarray(m, dtype=bool).reshape(h, w)
         mask = aa.Mask2D(mask=mm.copy(), pixel_scales=scales)
-        d = aa.Array2D(values=data.copy(), mask=mask)
-        n = aa.Array2D(values=noise.copy(), mask=mask)
-        want_d, want_n = np.where(mm, 0.0, data), np.where(mm, 0.0, noise)
+        if spec.get("raw"):
+            # stored content at masked pixels: data keeps the raw numbers (skip_mask), the noise map is derived by
+            # additive arithmetic on a native-stored masked array
+            d = aa.Array2D(values=data.copy(), mask=mask, store_native=True, skip_mask=True)
+            n = aa.Array2D(values=noise.copy(), mask=mask, store_native=True) + 1.0
+            want_d, want_n = np.where(mm, 0.0, data), np.where(mm, 0.0, noise + 1.0)
+        else:
+            d = aa.Array2D(values=data.copy(), mask=mask)
+            n = aa.Array2D(values=noise.copy(), mask=mask)
+            want_d, want_n = np.where(mm, 0.0, data), np.where(mm, 0.0, noise)
     else:
         d = aa.Array2D.no_mask(values=data.copy(), pixel_scales=scales)
         n = aa.Array2D.no_mask(values=noise.copy(), pixel_scales=scales)
@@ -783,6 +840,7 @@ def body_imaging(case, ctx):
         asym = not np.array_equal(want_d, np.flipud(want_d))
         ctx.label("path:" + pk, "scenario:" + scen, "flip:%s" % ("on" if flip else "off"),
                   "psf:%s" % ("yes" if want_p is not None else "no"), "mask:%s" % ("yes" if spec.get("mask") else "no"),
+                  "raw-at-masked-pixels:%s" % ("yes" if spec.get("raw") else "no"),
                   "shape:square" if h == w else "shape:nonsquare",
                   "scales:iso" if scales[0] == scales[1] else "scales:aniso",
                   "content:flip-asymmetric" if asym else "content:flip-symmetric")
@@ -888,6 +946,8 @@ def imaging_spec(draw, hi=6):
     else:
         spec["psf"] = None
     spec["mask"] = draw(gens.masks(shape=[h, w])) if draw(st.booleans()) else None
+    if spec["mask"] is not None and any(v for r in spec["mask"] for v in r):
+        spec["raw"] = draw(st.booleans())
     return spec
 
 
@@ -916,7 +976,7 @@ def imaging_cases(draw):
 # ---------------------------------------------------------------------------------------------
 # sub-check: reread (same path written, read, replaced by different content and read again in one process)
 # ---------------------------------------------------------------------------------------------
-REREAD_KINDS = ["array2d", "kernel2d", "array1d", "mask2d", "array2d-masked", "mask1d"]
+REREAD_KINDS = ["array2d", "kernel2d", "array1d", "array2d-raw", "mask2d", "array2d-masked", "mask1d"]
 PATH_FORMS = ["rel-str", "abs-str", "rel-Path", "abs-Path"]
 
 
